@@ -16,8 +16,10 @@ RULE = ("1-3 parameters (bool/int/float/str with every width/sign suffix: [u]int
         "declaration followed by 0-6 typed/untyped modifications, interleaved; values from a boundary grid (0, -0.0, +-1, "
         "large, false, '', none); modification units absent / identical / same dimension (prefixed, compound, custom $unit) "
         "/ other dimension / a unit on a unit-less definition; injected: type change, assignment after !constant, assignment to an undefined path, declared "
-        "but never assigned. Further streams: (clauses) the modifications sit inside `@case true/false ... [@else ...] @end` "
-        "clauses after 0-150 earlier clause keywords, optionally cut into a chain of parses on one environment, judged "
+        "but never assigned, a float-form literal (point or exponent, integral or not, scalar or array element) for an int "
+        "parameter. Further streams: (clauses) the modifications sit inside `@case true/false ... [@else ...] @end` "
+        "clauses (which may also contain first definitions/declarations, optionally protected by !constant) after 0-150 "
+        "earlier clause keywords, followed by assignments after the clauses, optionally cut into a chain of parses on one environment, judged "
         "against the specification on the effective lines (selected bodies count at the clause's indentation); "
         "(chain-of-parses) programs cut into 2-3 texts parsed with DIP(env), model and specification evaluated on every "
         "prefix. A returned environment that cannot be read counts as 'envbroken', not as a failed parse. non-trivial = at least two modifications of one parameter or a unit conversion or an "
@@ -119,7 +121,7 @@ class Param:
         self.path = path
         self.ty = rng.choice(["float", "float", "float", "int", "int", "bool", "str"])
         self.kw, self.prec, self.uns = H.gen_type(rng, self.ty)
-        self.shape = rng.choice([None] * 6 + [[2], [2, 2], [1]])
+        self.shape = rng.choice([None] * 6 + [[2], [2, 2], [1], [0]])
         self.dims_text, self.dims = ("", None)
         if self.shape is not None:
             self.dims_text, self.dims = H.gen_dims(rng, self.shape)
@@ -128,6 +130,36 @@ class Param:
         self.constant = rng.random() < 0.08
         self.nmods = rng.choice([0, 1, 1, 2, 2, 3, 4, 5, 6])
         self.inject = None
+
+
+FLOAT_FORMS_FOR_INT = ["25e-1", "-1.5e0", "1e-3", "1e3", "2E2", "1.0", "2.5", "1e0", "-3e1", "7.", "0.0", "-0e0", "1E+2"]
+
+
+def float_form_value(rng, shape):
+    """a literal that is not an integer literal (point or exponent), integral or not, scalar or inside an array;
+    its abstract value is the text itself: not a value of type int"""
+    def build(sh, bad):
+        if not sh:
+            if bad[0]:
+                bad[0] = False
+                t = rng.choice(FLOAT_FORMS_FOR_INT)
+                if t in ("7.", "1.0") and sh is not None:
+                    pass
+                return t, t
+            i = rng.choice([0, 1, -1, 7])
+            return str(i), i
+        n = sh[0]
+        k = rng.randrange(n) if n else 0
+        parts = []
+        for j in range(n):
+            parts.append(build(sh[1:], bad if j == k else [False]))
+        return "[" + ",".join(q[0] for q in parts) + "]", [q[1] for q in parts]
+    if shape is not None:
+        # JSON has no `7.` / `1E+2`-free restrictions except: digits on both sides of the point
+        t, v = build(shape, [True])
+        return t.replace("7.,", "7.0,").replace("7.]", "7.0]"), v
+    t = rng.choice(FLOAT_FORMS_FOR_INT)
+    return t, t
 
 
 def gen_program(rng):
@@ -163,6 +195,8 @@ def gen_program(rng):
         inj = "unitless"
     elif r < 0.31:
         inj = "nonnumeric"
+    elif r < 0.38:
+        inj = "floatlit"
     # interleave, keeping each parameter's own order
     order = []
     heads = [0] * len(events)
@@ -187,7 +221,8 @@ def render_program(rng, params, order, inj):
     features = set()
     mods_seen = {}
     n_mod_total = sum(1 for e in order if e[0] == "mod")
-    inj_at = rng.randrange(n_mod_total) if (inj in ("type", "dimension", "unitless", "nonnumeric") and n_mod_total) else -1
+    inj_at = rng.randrange(n_mod_total) if (inj in ("type", "dimension", "unitless", "nonnumeric", "floatlit") and n_mod_total) else -1
+    floatlit_first = inj == "floatlit" and (n_mod_total == 0 or rng.random() < 0.35)
     if inj == "undefined":
         inj_pos = rng.randrange(len(order) + 1)
     mod_idx = 0
@@ -241,6 +276,10 @@ def render_program(rng, params, order, inj):
                 state[key] = {"value": "undef", "frozen": False}
             else:
                 lit, val = gen_value(rng, p.ty, p.shape)
+                if floatlit_first and p.ty == "int" and (p.shape is None or 0 not in p.shape) and "float-literal-to-int" not in features:
+                    lit, val = float_form_value(rng, p.shape)
+                    features.add("float-literal-to-int")
+                    error = True
                 head += rng.choice([" = ", "=", "  =  "]) + lit
                 if p.unit:
                     head += H.sp(rng) + p.unit
@@ -286,6 +325,12 @@ def render_program(rng, params, order, inj):
                     if val == 0 or (isinstance(val, list) and not any(flatten(val))):
                         features.add("other-dimension:zero")
             unitless_err = False
+            if this == inj_at and inj == "floatlit" and not floatlit_first and p.ty == "int" and (p.shape is None or 0 not in p.shape):
+                lit, val = float_form_value(rng, p.shape)
+                if unit is not None and rng.random() < 0.5:
+                    unit = None
+                unitless_err = True
+                features.add("float-literal-to-int")
             if this == inj_at and inj == "unitless" and p.unit is None and p.ty in ("int", "float") and val is not None:
                 unit = rng.choice(H.LIN_UNITS[rng.choice(sorted(H.LIN_UNITS))])
                 unitless_err = True
@@ -360,7 +405,8 @@ def signature(c, impl, spec):
     if impl == "envbroken":
         return "c14:%s:returned-environment-without-value" % c.get("stream", "chain")
     if isinstance(spec, str) and not isinstance(impl, str):
-        for f in ("type-change", "other-dimension", "unit-on-unitless", "unit-on-nonnumeric", "constant", "undefined", "never-assigned"):
+        for f in ("type-change", "float-literal-to-int", "other-dimension", "unit-on-unitless", "unit-on-nonnumeric", "constant",
+                  "constant-in-clause", "undefined", "never-assigned"):
             if f in feats:
                 return "c14:accepted:" + f
         return "c14:accepted"
@@ -403,6 +449,13 @@ CORPUS = [
     ("a int\na int = 3 s", "err"),
     ("a float = 1\na = 3", [["a", "float", 64, None, None, 3]]),
     ("a str = x\na = y m", "err"),
+    ("steps int = 3\nsteps = 25e-1", "err"),
+    ("steps int = 3\nsteps = 1e3", "err"),
+    ("a int = 1e3", "err"),
+    ("a int[2] = [1,2.5]", "err"),
+    ("a int[2] = [1,2]\na = [1,2e0]", "err"),
+    ("a float[0:] = [] mg\na = [] m", "err"),
+    ("a float[0:] = [] mg\na = [] g", [["a", "float", 64, None, "mg", []]]),
     ("a bool = true\na = false s", "err"),
     ("g\n  a float = 1 km\ng.a = 0 mm\ng\n     a = -1 m", [["g.a", "float", 64, None, "km", Fraction(-1, 1000)]]),
 ]
@@ -491,7 +544,83 @@ def gen_clause_program(rng):
 
     order = [p.leaf for p in params]
 
+    frozen = set()
+
+    def define_in_clause(applied, w):
+        """a parameter first written INSIDE a clause (definition or declaration), optionally protected by !constant"""
+        nm = rng.choice(["c1", "c2", "depth", "inner", "lim"])
+        if nm in used:
+            return
+        used.add(nm)
+        p = Param(rng, groups + [nm])
+        p.leaf = nm
+        head = H.sp(rng) + p.kw + p.dims_text
+        const = rng.random() < 0.5
+        if p.declared and not const and not staged:
+            if p.unit:
+                head += H.sp(rng) + p.unit
+            text.append(" " * (ind + w) + nm + head)
+            payload = ["decl", p.ty, p.prec, p.uns, p.dims, p.unit]
+            val = "undef"
+        else:
+            lit, val = gen_value(rng, p.ty, p.shape)
+            head += rng.choice([" = ", "=", "  =  "]) + lit + ((H.sp(rng) + p.unit) if p.unit else "")
+            text.append(" " * (ind + w) + nm + head + H.comment(rng, 0.2))
+            payload = ["defn", p.ty, p.prec, p.uns, p.dims, p.unit, H.to_json_val(val)]
+        lines.append([ind, nm, payload] if applied else [ind, "", ["skip"]])
+        if const:
+            text.append(" " * (ind + w + rng.randint(1, 4)) + "!constant" + H.comment(rng, 0.2))
+            lines.append([ind, "", ["const"]] if applied else [ind, "", ["skip"]])
+        if applied:
+            params.append(p)
+            order.append(nm)
+            state[nm] = val
+            feats.add("definition-in-selected-clause")
+            if const:
+                frozen.add(nm)
+                feats.add("constant-in-clause")
+
+    def assign(p, at, applied):
+        """one typed/untyped assignment to p written at indentation `at`"""
+        lit, val = gen_value(rng, p.ty, p.shape)
+        typed = rng.random() < 0.35
+        unit = None
+        if p.unit and val is not None and rng.random() < 0.7:
+            unit = rng.choice(H.LIN_UNITS[p.fam])
+            if rng.random() < 0.08:
+                unit = rng.choice(H.LIN_UNITS[rng.choice([f for f in sorted(H.LIN_UNITS) if f != p.fam])])
+                feats.add("other-dimension-in-clause")
+        mprec = muns = None
+        if typed:
+            kw, mprec, muns = H.gen_type(rng, p.ty)
+            head = H.sp(rng) + kw + p.dims_text + rng.choice([" = ", "="]) + lit
+        else:
+            head = rng.choice([" = ", " =", "  =  "]) + lit
+        if unit:
+            head += H.sp(rng) + unit
+        text.append(" " * at + p.leaf + head + H.comment(rng, 0.2))
+        if applied:
+            lines.append([ind, p.leaf, ["assign", p.ty if typed else None, unit, H.to_json_val(val), mprec, muns, p.dims]])
+            if p.leaf in frozen:
+                error[0] = True
+                feats.add("assignment-to-constant-defined-in-clause")
+            nv = conv_exact(p.unit, unit, val)
+            if nv == "err":
+                error[0] = True
+            else:
+                state[p.leaf] = nv
+        else:
+            lines.append([ind, "", ["skip"]])
+
     def body(applied, w):
+        for _ in range(rng.choice([1, 1, 2, 3])):
+            if rng.random() < 0.3:
+                define_in_clause(applied, w)
+                continue
+            assign(rng.choice(params), ind + w, applied)
+        return
+
+    def body_old(applied, w):
         for _ in range(rng.choice([1, 1, 2, 3])):
             p = rng.choice(params)
             lit, val = gen_value(rng, p.ty, p.shape)
@@ -545,6 +674,12 @@ def gen_clause_program(rng):
         feats.add("assignment-in-selected-clause" if sel else "assignment-in-unselected-clause")
         if staged and rng.random() < 0.4:
             cuts.append(len(text))
+    # assignments written after the clauses, at the clauses' own indentation
+    for _ in range(rng.choice([0, 1, 1, 2])):
+        assign(rng.choice(params), ind, True)
+        feats.add("assignment-after-clauses")
+        if staged and rng.random() < 0.3:
+            cuts.append(len(text) - 1)
     if any(state[p.leaf] == "undef" for p in params):
         error[0] = True
         feats.add("declared-never-effectively-assigned")
